@@ -5,6 +5,7 @@ import (
 	"fmt"
 	"go/ast"
 	"go/format"
+	"go/importer"
 	"go/parser"
 	"go/printer"
 	"go/token"
@@ -42,7 +43,7 @@ type c20Field struct {
 
 func c20Fields() []c20Field {
 	shapes := []struct{ name, decl string }{
-		{"single", "A %s"}, {"multi", "X, Y %s"}, {"embedded", "E"}, {"embedded", "*E"}, {"unexported", "b %s"}, {"blank", "_ %s"},
+		{"single", "A %s"}, {"multi", "X, Y %s"}, {"embedded", "E"}, {"embedded", "*E"}, {"embedded", "GE[int]"}, {"embedded", "*GE[string]"}, {"embedded", "time.Time"}, {"embedded", "e"}, {"unexported", "b %s"}, {"blank", "_ %s"},
 	}
 	typs := []string{"int", "string", "struct{ In int }"}
 	tags := []struct{ class, lit string }{
@@ -74,7 +75,7 @@ func c20Fields() []c20Field {
 func c20File(ctx string, fields []string) string {
 	body := "\t" + strings.Join(fields, "\n\t") + "\n"
 	var b strings.Builder
-	b.WriteString("// Package p is generated.\npackage p\n\n// E is embedded.\ntype E struct {\n\tQ int `plenc:\"1\"`\n}\n\n")
+	b.WriteString("// Package p is generated.\npackage p\n\nimport \"time\"\n\nvar _ = time.Now\n\n// E is embedded.\ntype E struct {\n\tQ int `plenc:\"1\"`\n}\n\n// GE is a generic embedded type, e an unexported one.\ntype GE[T any] struct {\n\tV T `plenc:\"1\"`\n}\n\ntype e struct {\n\tW int `plenc:\"1\"`\n}\n\n")
 	switch ctx {
 	case "pkg":
 		b.WriteString("// S is the struct under test.\ntype S struct {\n" + body + "}\n")
@@ -87,6 +88,9 @@ func c20File(ctx string, fields []string) string {
 	}
 	return b.String()
 }
+
+// c20Importer type-checks imported standard packages from source (offline, cached per worker).
+var c20Importer = importer.ForCompiler(token.NewFileSet(), "source", nil)
 
 type c20Flags struct{ w, json, sql, private bool }
 
@@ -255,14 +259,26 @@ func c20FieldNames(f *ast.Field) []string {
 		}
 		return out
 	}
+	// an embedded field is named after its type (Go spec): through *, type arguments and package qualifiers
 	t := f.Type
-	if s, ok := t.(*ast.StarExpr); ok {
-		t = s.X
+	for {
+		switch tt := t.(type) {
+		case *ast.StarExpr:
+			t = tt.X
+			continue
+		case *ast.IndexExpr:
+			t = tt.X
+			continue
+		case *ast.IndexListExpr:
+			t = tt.X
+			continue
+		case *ast.SelectorExpr:
+			return []string{tt.Sel.Name}
+		case *ast.Ident:
+			return []string{tt.Name}
+		}
+		return []string{"?"}
 	}
-	if id, ok := t.(*ast.Ident); ok {
-		return []string{id.Name}
-	}
-	return []string{"?"}
 }
 
 func c20One(c *mc.Ctx, bin, dir, ctx string, fs []c20Field, src string, fl c20Flags) {
@@ -479,7 +495,7 @@ func c20One(c *mc.Ctx, bin, dir, ctx string, fs []c20Field, src string, fl c20Fl
 	// type-checks
 	tfset := token.NewFileSet()
 	tf, _ := parser.ParseFile(tfset, "out.go", outSrc, 0)
-	conf := types.Config{Error: func(error) {}}
+	conf := types.Config{Error: func(error) {}, Importer: c20Importer}
 	if _, err := conf.Check("p", tfset, []*ast.File{tf}, nil); err != nil {
 		c.Violation(sig+"output-does-not-type-check", err.Error())
 		return
